@@ -6,7 +6,6 @@ import (
 	"math/big"
 	"path/filepath"
 	"runtime"
-	"strings"
 
 	"github.com/nspcc-dev/neo-go/pkg/core/state"
 	"github.com/nspcc-dev/neo-go/pkg/core/storage"
@@ -53,13 +52,14 @@ func txOf(version, pos int) util.Uint256 {
 	return h
 }
 
-func (c *tlogCase) ask(target int, nep11 bool, acc util.Uint160, ts uint64) [][]string {
+func (c *tlogCase) ask(target int, nep11 bool, acc util.Uint160, ts uint64) ([][]string, []string) {
 	pre := tlogKey(nep11, acc, 0, 0)[:1+util.Uint160Size]
 	var start [8]byte
 	binary.BigEndian.PutUint64(start[:], ts)
 	q := &query{api: apiTlog, target: target, rng: refmap.Range{Prefix: pre, Start: start[:], Backwards: true}}
 	view := c.m.View(target, 0)
 	answers := make([][]string, len(c.reps))
+	classes := make([]string, len(c.reps))
 	fails := map[string]string{}
 	knownSig := ""
 	var want []refmap.KV
@@ -119,12 +119,11 @@ func (c *tlogCase) ask(target int, nep11 bool, acc util.Uint160, ts uint64) [][]
 			continue
 		}
 		if known {
-			if knownSig == "" || sig == sigExtResurfaces || (sig == sigExtStale && knownSig == sigExtDepends) {
-				knownSig = sig
-			}
+			classes[i] = sig
+			knownSig = worse(knownSig, sig)
 			continue
 		}
-		fails[rp.kind] = strings.Replace(sig, "seek-differs-from-ordered-map:", "dao-transfer-log-differs:", 1)
+		fails[rp.kind] = "dao-transfer-log-differs-from-ordered-map|" + sig
 	}
 	if want == nil {
 		want = refmap.Seek(view, q.rng, true)
@@ -150,9 +149,10 @@ func (c *tlogCase) ask(target int, nep11 bool, acc util.Uint160, ts uint64) [][]
 				break
 			}
 		}
-		c.violation(first+":"+kindsOf(fails), fmt.Sprint(shown), shown)
+		sg, how := splitSig(first)
+		c.violation(sg+":"+kindsOf(fails), fmt.Sprintf("[%s] %v", how, shown), shown)
 	}
-	return answers
+	return answers, classes
 }
 
 type tlogQ struct {
@@ -246,8 +246,9 @@ func (c *tlogCase) persistTlog(li int, mode string) {
 		qs = append(qs, c.genQ(li))
 	}
 	before := make([][][]string, len(qs))
+	beforeCls := make([][]string, len(qs))
 	for i, q := range qs {
-		before[i] = c.ask(q.target, q.nep11, q.acc, q.ts)
+		before[i], beforeCls[i] = c.ask(q.target, q.nep11, q.acc, q.ts)
 	}
 	n := len(c.m.Layers[li])
 	c.log = append(c.log, fmt.Sprintf("%s L%d (%d entries)", mode, li, n))
@@ -274,16 +275,18 @@ func (c *tlogCase) persistTlog(li int, mode string) {
 		c.run.Obs("flushes_of_nonempty_layers", 1)
 	}
 	for i, q := range qs {
-		after := c.ask(q.target, q.nep11, q.acc, q.ts)
+		after, afterCls := c.ask(q.target, q.nep11, q.acc, q.ts)
 		for j := range after {
 			if before[i][j] == nil || after[j] == nil {
 				continue
 			}
 			c.run.Obs("flush_invariance_pairs", 1)
 			if !eqStrs(before[i][j], after[j]) {
-				// every transfer-log query is a backward seek with a start; the
-				// per-answer classification above has named the shape already.
-				c.violation(sigExtDepends, fmt.Sprintf("dao transfer log query (acc=%x ts=%d nep11=%v L%d) on %s: before %s of L%d %v, after %v", q.acc.BytesBE()[:2], q.ts, q.nep11, q.target, c.reps[j].kind, mode, li, before[i][j], after[j]),
+				sig := "flush-changes-answer"
+				if worse(beforeCls[i][j], afterCls[j]) != "" {
+					sig = sigExtDepends
+				}
+				c.violation(sig, fmt.Sprintf("dao transfer log query (acc=%x ts=%d nep11=%v L%d) on %s: before %s of L%d %v, after %v", q.acc.BytesBE()[:2], q.ts, q.nep11, q.target, c.reps[j].kind, mode, li, before[i][j], after[j]),
 					map[string]any{"backend": c.reps[j].kind, "before": before[i][j], "after": after[j]})
 			}
 		}
@@ -299,6 +302,12 @@ func runTlogCase(run *ev.Run, idx int, tmp string) {
 	}
 	sh.h = [2]int{5, 6}
 	c := &tlogCase{seqCase: &seqCase{id: id, sh: sh, r: r, m: refmap.New(sh.depth), run: run, cover: []byte{byte(storage.STNEP11Transfers), byte(storage.STNEP17Transfers)}}, keyOf: map[int]string{}, sizeOf: map[int]int{}}
+	c.valOf = func(v []byte) string {
+		if len(v) < 9 {
+			return "malformed"
+		}
+		return fmt.Sprint("b", binary.LittleEndian.Uint32(v[5:9]))
+	}
 	c.accs = []util.Uint160{{1, 2, 3}, {0xff, 0xff, 0xff, 0xff, 0xff, 0xff, 0xff, 0xff, 0xff, 0xff, 0xff, 0xff, 0xff, 0xff, 0xff, 0xff, 0xff, 0xff, 0xff, 0xff}}
 	for len(c.times) < 4 {
 		t := tlogTimes[r.Intn(len(tlogTimes))]
